@@ -27,13 +27,6 @@ structure ColsOK {α : Type} (x : Ext α) (sh : Nat → String) (comma : Bool) (
     hasSub (a.chan ci) (a.value i s e c) = false
   /-- scan numbers survive `str` → `int` -/
   scans : ∀ s, s < a.nscans → x.readInt (fixDec comma (sh s)) = some (s : Int)
-  /-- `np.genfromtxt` cuts a line at a `#`: none in the sample names (line 1) nor in the lines of the
-  requested channel (scan number, label, channel name, values) -/
-  sampleHash : ∀ s ∈ a.samples, hasHash s = false
-  scanHash : ∀ s, s < a.nscans → hasHash (sh s) = false
-  labelHash : ∀ e ∈ a.elements, hasHash e = false
-  chanHash : hasHash (a.chan ci) = false
-  valueHash : ∀ i, i < a.samples.length → ∀ s, s < a.nscans → ∀ e, e < a.elements.length → hasHash (a.value i s e ci) = false
 
 /-- the selected lines of the columns layout: every element, channel `ci`, every scan -/
 def colsSel (m k ci : Nat) : List (Nat × Nat × Nat) :=
@@ -110,18 +103,10 @@ theorem lineStarts_main (r : Row) : lineStarts ("MainRuns" :: r) = true := by
 theorem readCols_render_aux {α : Type} (x : Ext α) (sh : Nat → String) (comma : Bool) (a : Acq) (ci : Nat)
     (h : ColsOK x sh comma a ci) :
     readCols x comma (a.chan ci) (renderCols sh a) = some (specImg x comma a ci) := by
-  obtain ⟨hn, hsn, hm, hk, hkm, hnd, hlab, hci, hself, hmain, heol, hcscan, hclab, hcval, hsc, hsh, hsch, hlh, hch, hvh⟩ := h
+  obtain ⟨hn, hsn, hm, hk, hkm, hnd, hlab, hci, hself, hmain, heol, hcscan, hclab, hcval, hsc⟩ := h
   -- the sample count
   have hfirst : gfSplit (["", "", "", ""] ++ a.samples ++ ["\n"]) = "" :: ((["", "", ""] ++ a.samples) ++ [""]) := by
-    have := gfSplit_line "" (["", "", ""] ++ a.samples) (by
-      intro g hg
-      simp only [List.cons_append, List.nil_append, List.mem_cons] at hg
-      rcases hg with hg | hg | hg | hg | hg
-      · rw [hg]; exact hasHash_empty
-      · rw [hg]; exact hasHash_empty
-      · rw [hg]; exact hasHash_empty
-      · rw [hg]; exact hasHash_empty
-      · exact hsh g hg)
+    have := gfSplit_line "" (["", "", ""] ++ a.samples)
     simpa [lstrip_empty] using this
   have hcount : (gfSplit (["", "", "", ""] ++ a.samples ++ ["\n"])).countP (fun f => f != "") = a.samples.length := by
     rw [hfirst]
@@ -156,7 +141,7 @@ theorem readCols_render_aux {α : Type} (x : Ext α) (sh : Nat → String) (comm
     intro y hy
     exact hline y hy
   -- the selected lines as `genfromtxt` sees them
-  have hlines : gfLines comma ((colsSel a.nscans a.elements.length ci).map (colLine sh a))
+  have hlines : gfLinesWith gfSplit comma ((colsSel a.nscans a.elements.length ci).map (colLine sh a))
       = (colsSel a.nscans a.elements.length ci).map (gfColLine sh comma a) := by
     apply gfLines_map
     · intro y hy
@@ -166,15 +151,6 @@ theorem readCols_render_aux {α : Type} (x : Ext α) (sh : Nat → String) (comm
       have := gfSplit_line "MainRuns"
         (fixDec comma (sh y.1) :: fixDec comma (a.elem y.2.1) :: fixDec comma (a.chan y.2.2) ::
           (List.range a.samples.length).map (fun i => fixDec comma (a.value i y.1 y.2.1 y.2.2)))
-        (by
-          intro g hg
-          simp only [List.mem_cons, List.mem_map, List.mem_range] at hg
-          rcases hg with hg | hg | hg | hg | ⟨i, hi, hg⟩
-          · rw [hg]; exact hasHash_main
-          · rw [hg, hasHash_fixDec]; exact hsch y.1 hy1
-          · rw [hg, hasHash_fixDec]; exact hlh _ (elem_mem a y.2.1 hy2)
-          · rw [hg, hasHash_fixDec, hy3]; exact hch
-          · rw [← hg, hasHash_fixDec, hy3]; exact hvh i hi y.1 hy1 y.2.1 hy2)
       simpa [lstrip_main, Function.comp_def] using this
     · intro y _; rfl
   have hlen : ((colsSel a.nscans a.elements.length ci).map (gfColLine sh comma a)).length = a.elements.length * a.nscans := by
@@ -226,7 +202,7 @@ theorem readCols_render_aux {α : Type} (x : Ext α) (sh : Nat → String) (comm
       exact (mem_colsSel.mp hz).1
     · exact List.mem_map.mpr ⟨(a.nscans - 1, 0, ci), mem_colsSel.mpr ⟨by simp; omega, hk, rfl⟩, rfl⟩
   have h4 : ¬ ((a.nscans : Int) < 0) := by omega
-  unfold renderCols readCols
+  unfold renderCols readCols readColsWith
   simp only [hcount, hsel, hlines, h0, h2, hsame, h3, hparse, Bool.false_eq_true, if_false, List.map_map, hnames, hw, h4,
     Int.toNat_natCast]
   rw [map_elems]
